@@ -472,6 +472,15 @@ impl Store {
     }
 }
 
+/// Verification hooks (runtime monitors in `/verif`): public forwarding wrappers only.
+#[cfg(gmsol_verif)]
+impl Store {
+    /// Public wrapper of `gt_mut`.
+    pub fn verif_gt_mut(&mut self) -> &mut GtState {
+        self.gt_mut()
+    }
+}
+
 /// Store Wallet Signer.
 pub(crate) struct StoreWalletSigner {
     store: Pubkey,
